@@ -99,6 +99,13 @@ theorem validate_iff (n : Name) : (∃ m, validate n = .ok m) ↔ WfName n := by
   · rintro ⟨m, hm⟩; exact (wf_of_validate n m hm).2
   · intro h; exact ⟨n, validate_of_wf n h⟩
 
+/-- The limits the code enforces (regenerated from dns/name.py on every run) are the ones the property
+names: labels of at most 63 octets, names of at most 255, label types 0x00/0xC0, 14-bit pointers.  A change
+of any of them in the source breaks this obligation. -/
+theorem limits_are_rfc1035 : Consts.maxLabel = 63 ∧ Consts.maxName = 255 ∧ Consts.ptrLabelMin = 64 ∧
+    Consts.ptrTagMin = 192 ∧ Consts.maxPtr = 16383 ∧ Consts.ptrBase = 49152 ∧
+    Consts.nameEscaped = [34, 36, 40, 41, 46, 59, 64, 92] := by decide
+
 /-- non-vacuity: a name with dots, quotes, backslash, '@', '$', control and high octets is well formed -/
 example : WfName [[46, 34, 92, 64, 36, 0, 255], [97], []] ∧ OctetsOk [[46, 34, 92, 64, 36, 0, 255], [97], []] := by
   constructor
